@@ -16,15 +16,19 @@ META = {
             "nat->bool (any subset of allocation attempts failing), both handler modes of the documented contract (default handler: process exit; "
             "handler that longjmps), every scenario (mj_copyModel new/in place, mj_loadModelBuffer for each of 10 accept/reject classes, mj_saveModel "
             "to a file, mj_makeData/mj_copyData/mj_resetData/mj_deleteData with 0/1/2 plugin instances, the engine calls of mjCModel::Compile with "
-            "retry) and all 16 source variants: the model's trace is safe, contains an error or NULL return iff an attempted allocation failed or the "
+            "retry, the IN-PLACE remake of an mjData owned by the caller (mj_makeRawData + mj_initPlugin + mj_resetData as in mjCModel::MakeData) "
+            "followed by mj_deleteData also after a failure, and compile + make data + in-place mj_recompile followed by what the caller must do) "
+            "and all 64 source variants: the model's trace is safe, contains an error or NULL return iff an attempted allocation failed or the "
             "file is rejected, the live set at a normal end is exactly what the caller owns, and constructor+destructor leaves the heap empty "
-            "(C21_protocol_safe, C21_failure_iff_abnormal, C21_leak_free, C21_ctor_dtor_empty); the universal quantifier over oracles is discharged by "
+            "(C21_protocol_safe, C21_failure_iff_abnormal, C21_leak_free, C21_ctor_dtor_empty; C21_inplace_failure_deletable: a failed in-place "
+            "construction leaves an object whose deletion frees every live block exactly once; safe_clause_holds/leak_clause_holds name the "
+            "variants where the clauses hold, and C21_inplace_dangling_buffer_refuted / C21_inplace_plugin_refuted show they fail elsewhere); the universal quantifier over oracles is discharged by "
             "C21_oracles_are_paths (every oracle follows one of the finitely many paths of the loop-free program, proved by induction) plus vm_compute "
             "over the paths; plugin counts are bounded by 2 in the statement. (3) The leak clause is proved FALSE of the faithful model where the "
             "code is defective (C21_compile_leak_refuted: mju_malloc raises the error itself, so under the compiler's longjmp handler the struct "
             "allocated by mj_makeModel/mj_makeRawData before the failing buffer allocation is lost; C21_compile_plugin_leak_refuted; "
             "C21_load_structs_leak_refuted). Tied: the source scan (translate/c21_scan.py) checks the ordered allocation/free/error/return tokens of the 19 "
-            "modelled functions against the lists the model was written against and selects the variant; the real library's event trace "
+            "modelled functions (21 with mjCModel::MakeData and mj_recompile) against the lists the model was written against and selects the variant; the real library's event trace "
             "(allocations with size class, frees, error/warning handler calls, returns, exit status) equals the model's trace for every single "
             "fault k and for seeded random multi-fault sets on mjgen and plugin models. Observed only: absence of NULL dereference / crash "
             "(wait status of the forked child; freed blocks are quarantined and poisoned; in the thorough tier a second pass runs the driver LINKED with "
@@ -36,7 +40,8 @@ META = {
             "longjmp handler are NOT counted as leaks. Not covered: the XML parser (not buildable here), failures of C++ new in the compiler, "
             "Python bindings, mjv_makeScene, mju_boxQPmalloc, mj_printFormattedData, flex collision scratch buffers, mesh/composite/flexcomp "
             "buffers of the compiler (listed in coverage.support.call_sites), handlers that return (outside the documented contract), "
-            "mj_makeModel/mj_makeRawData with a caller-supplied destination, threadpool creation (C++ new).",
+            "the rejected-size exits of an in-place mj_makeModel, threadpool creation (C++ new). When the model itself runs into undefined behaviour "
+            "(in-place scenarios of a defective variant) the tie requires agreement only up to that point and the run is reported as a violation.",
     "note": "Trusted: Coq kernel; hand-written model Model/AllocProto.v (per-site transcription; Use events are the model's reading of where the code "
             "dereferences, they are not observable in implementation traces); the token scan compares shapes, not full control flow; gcc, the fork/"
             "shared-memory trace recorder of harness/drivers/c21_alloc.c; size-class identification of allocation sites. All theorems closed under "
@@ -50,11 +55,12 @@ META = {
 SITE_NAMES = ["mjModel", "mjModel.buffer", "mjData", "mjData.buffer", "mjData.arena", "plugin.init", "resetData.plugin_state",
               "resetData.plugin_data", "copyData.save_plugin_data", "saveModel.tmpbuf", "writeResource.vfs"]
 LREJ = ["LR_none", "LR_header", "LR_mk_early", "LR_mk_names", "LR_nbuffer", "LR_namesmap", "LR_structs", "LR_array", "LR_toolarge", "LR_validate"]
-API = {"CM": "mj_copyModel", "LD": "mj_loadModelBuffer", "SV": "mj_saveModel", "DT": "mj_makeData/mj_copyData", "ST": "mj_step", "CP": "mj_compile"}
+API = {"CM": "mj_copyModel", "LD": "mj_loadModelBuffer", "SV": "mj_saveModel", "DT": "mj_makeData/mj_copyData", "ST": "mj_step", "CP": "mj_compile",
+       "IP": "mj_makeRawData(in place)", "RC": "mj_recompile"}
 FOREIGN_ID = 4095
 
 PRE = r"""
-Definition V : variant := {| v_mbuf := %s; v_dbuf := %s; v_darena := %s; v_lstructs := %s |}.
+Definition V : variant := {| v_mbuf := %s; v_dbuf := %s; v_darena := %s; v_lstructs := %s; v_dnull := %s; v_npl := %s |}.
 Definition norm (cls : list nat) (e : event) : event :=
   match e with
   | Alloc k s => Alloc k (nth s cls 98)
@@ -91,14 +97,33 @@ Fixpoint canon (t : trace) (pending : list nat) : trace :=
   | e :: r => map Free pending ++ e :: canon r []
   | [] => map Free pending
   end.
-Definition drop_err (t : trace) : trace := filter (fun e => match e with Error _ => false | _ => true end) t.
+(* errors caught by the compiler's own handler (class >= 100) are not visible to the global handler *)
+Definition drop_err (t : trace) : trace := filter (fun e => match e with Error c => Nat.ltb c 100 | _ => true end) t.
+(* longest prefix of a trace that the monitor accepts *)
+Fixpoint safe_prefix (h : list nat) (t : trace) : trace :=
+  match t with
+  | [] => []
+  | e :: r => match step_heap h e with Some h' => e :: safe_prefix h' r | None => [] end
+  end.
+Fixpoint is_prefix (a b : trace) : bool :=
+  match a, b with
+  | [], _ => true
+  | x :: r, y :: s => ev_eqb x y && is_prefix r s
+  | _, _ => false
+  end.
+Definition model_safe (c : scenario * hmode * list nat * list nat * bool * nat * trace) : bool :=
+  let '(sc, md, fails, _, _, _, _) := c in
+  safe_trace (trace_of (run (scenario_prog V md sc) (oracle_of fails) 0)).
 Definition end_kind (r : res (list nat)) : nat := match r with Val _ => 0 | Raised => 1 | Exited => 2 end.
 Definition tie (c : scenario * hmode * list nat * list nat * bool * nat * trace) : bool :=
   let '(sc, md, fails, cls, iscp, endk, impl) := c in
   let x := run (scenario_prog V md sc) (oracle_of fails) 0 in
-  let mt := map (norm cls) (observable (trace_of x)) in
-  let mt := if iscp then drop_err mt else mt in
-  tr_eqb (canon mt []) (canon impl []) && Nat.eqb (end_kind (value_of x)) endk.
+  let full := trace_of x in
+  if safe_trace full
+  then tr_eqb (canon (drop_err (map (norm cls) (observable full))) []) (canon impl []) && Nat.eqb (end_kind (value_of x)) endk
+  else (* the model itself runs into undefined behaviour (free/use of a dead block): the implementation must agree up to
+          that point, what it does afterwards is unconstrained *)
+       is_prefix (drop_err (map (norm cls) (observable (safe_prefix [] full)))) impl.
 """
 IMPORTS = "From Coq Require Import List Bool Arith.\nFrom MJV Require Import Model.AllocProto Proof.AllocProtoProof."
 
@@ -110,7 +135,7 @@ def coq_bool(b):
 def coq_scenario(scen, np, rej):
     n = "NP%d" % np
     return {"CM": "SC_COPYMODEL false", "LD": "SC_LOAD %s false" % LREJ[rej], "SV": "SC_SAVE", "DT": "SC_DATA %s false" % n,
-            "ST": "SC_STEP %s" % n, "CP": "SC_COMPILE %s false" % n}[scen]
+            "ST": "SC_STEP %s" % n, "CP": "SC_COMPILE %s false" % n, "IP": "SC_INPLACE %s" % n, "RC": "SC_RECOMPILE %s" % n}[scen]
 
 
 class Run:
@@ -147,6 +172,9 @@ def size_table(sz):
                  8 * sz["nplugin"], 8 * sz["nplugin"], sz["save"], sz["vfs"]]
     distinct = sorted(set(site_size))
     cls = {s: i for i, s in enumerate(distinct)}
+    # the edited model of the RC scenario has its own buffer sizes: same sites
+    cls.setdefault(sz.get("mbuf2", -1), cls[sz["mbuf"]])
+    cls.setdefault(sz.get("dbuf2", -1), cls[sz["dbuf"]])
     return site_size, cls
 
 
@@ -184,7 +212,7 @@ def to_events(r, cls):
         if t == "END":
             endk = 0; continue
         if t == "J":
-            endk = 1; continue
+            endk = 1; continue      # overwritten by a later END when the scenario caught the error itself (RC, IP)
         probs.append("unexpected token %s" % t)
     return evs, endk, probs, failed
 
@@ -202,7 +230,7 @@ def oracle(r, site_size):
     base_sig = {"site": sig_site}
     if r.scen == "LD":
         base_sig["reject"] = LREJ[r.rej][3:]
-    if r.scen in ("DT", "ST", "CP"):
+    if r.scen in ("DT", "ST", "CP", "IP", "RC"):
         base_sig["plugin"] = False   # overwritten by caller
     # crash
     if r.status.startswith("sig:") or (r.status.startswith("exit:") and r.status not in ("exit:0", "exit:1")):
@@ -228,16 +256,17 @@ def oracle(r, site_size):
                         dict(base_sig, kind="failure-not-surfaced", failed=failed_names[:1])))
             pending = None
     # the default handler terminates the process with EXIT_FAILURE
-    if r.mode == "E" and any(re.fullmatch(r"E\d+", t) for t in toks) and r.scen != "CP" and r.status != "exit:1":
+    if r.mode == "E" and any(re.fullmatch(r"E\d+", t) for t in toks) and r.status != "exit:1":
         out.append(("exit-status", "error raised under the default handler but the process ended with %s" % r.status,
                     dict(base_sig, kind="default-handler-status")))
     # compile: NULL return must come with an error message about the allocation
-    if r.scen == "CP":
+    if r.scen in ("CP", "RC"):
         for i, t in enumerate(toks):
             if t == "R0" and (i == 0 or not re.fullmatch(r"C[12]", toks[i - 1])):
                 out.append(("compile-no-error", "mj_compile returned NULL with an empty error message", dict(base_sig, kind="null-without-message")))
-    # leak: the scenario destroyed every object it created and returned normally
-    if "END" in toks:
+    # leak: the scenario destroyed every object it created and returned normally (not judged when an error left
+    # through the harness' own longjmp handler on the way: temporaries live at that point are not counted)
+    if "END" in toks and "J" not in toks:
         m = re.search(r"live:([\d,]*)", r.trailer)
         live = [int(x) for x in m.group(1).split(",") if x] if m else None
         if live is None:
@@ -251,6 +280,8 @@ def oracle(r, site_size):
             leaked = sorted(set(size_name.get(sizes.get(b), "size %s" % sizes.get(b)) for b in live))
             if xs:
                 sig = dict(base_sig, kind="leak-after-engine-alloc-failure", failed=failed_names[0])
+                if r.scen == "RC":
+                    sig["site"] = "mj_compile"     # a leak judged here (no error through the global handler) happened inside mjCModel::Compile
             else:
                 sig = dict(base_sig, kind="leak-on-rejected-file" if r.scen == "LD" else "leak")
             out.append(("leak", "blocks %s (%s) still live after the scenario destroyed every object it was given" % (live, ", ".join(leaked)), sig))
@@ -272,7 +303,7 @@ def run(ctx):
         ctx.broken.append(("translator", "allocation-site scan (translate/c21_scan.py)", str(e)))
         scan_ok = False
         # keep going with the variant read off leniently: the monitor and the oracles still search for a failing schedule
-        variant = getattr(e, "variant", None) or {"v_mbuf": False, "v_dbuf": False, "v_darena": False, "v_lstructs": False}
+        variant = getattr(e, "variant", None) or {"v_mbuf": False, "v_dbuf": False, "v_darena": False, "v_lstructs": False, "v_dnull": False, "v_npl": False}
         info = {"functions": {}, "allocators": {}}
     try:
         inv = S.inventory(ctx.repo)
@@ -328,6 +359,9 @@ def run(ctx):
                 lines.append("SWEEP SV %s %d 0 %d %d" % (mode, i, nr, sd + 1))
                 lines.append("SWEEP DT %s %d 0 %d %d" % (mode, i, nr, sd + 2))
                 lines.append("SWEEP CP %s %d 0 %d %d" % (mode, i, nr, sd + 3))
+                lines.append("SWEEP IP %s %d 0 %d %d" % (mode, i, nr, sd + 30))
+                if i == 0 or not quick:
+                    lines.append("SWEEP RC %s %d 0 %d %d" % (mode, i, nr, sd + 31))
                 for rej in range(len(LREJ)):
                     if i == 0 or rej in (0, 6) or not quick:
                         lines.append("SWEEP LD %s %d %d %d %d" % (mode, i, rej, 1 if rej else nr, sd + 4 + rej))
@@ -337,6 +371,9 @@ def run(ctx):
             for mode in "EJ":
                 lines.append("SWEEP DT %s %d 0 %d %d" % (mode, i, nr, sd))
                 lines.append("SWEEP CP %s %d 0 %d %d" % (mode, i, nr, sd + 1))
+                lines.append("SWEEP IP %s %d 0 %d %d" % (mode, i, nr, sd + 30))
+                if (i == p1 and mode == "J") or not quick:
+                    lines.append("SWEEP RC %s %d 0 %d %d" % (mode, i, nr, sd + 31))
             lines.append("SWEEP ST J %d 0 %d %d" % (i, nr, sd + 2))
             lines.append("SWEEP CM J %d 0 1 %d" % (i, sd + 3))
     def run_driver(executable, env=None, only_models=None):
@@ -410,6 +447,7 @@ def run(ctx):
     distinct = set()
     nviol = 0
     sigcount = {}
+    flagged = set()
     for r in runs:
         sz = sizes.get(r.idx)
         if sz is None:
@@ -422,6 +460,7 @@ def run(ctx):
                 "scenario": API.get(r.scen), "handler": {"E": "default (exit)", "J": "longjmp"}.get(r.mode, r.mode),
                 "failing_attempts": r.fails, "nplugin": np_, "reject": LREJ[r.rej]}
         for (what, detail, sig) in oracle(r, site_size):
+            flagged.add(id(r))
             if "plugin" in sig:
                 sig["plugin"] = bool(np_)
             failed_site = sig.pop("failed", None)
@@ -444,8 +483,6 @@ def run(ctx):
             endk = 2 if r.status == "exit:1" else 9
         clslist = "[" + "; ".join(str(cls[s]) for s in site_size) + "]"
         impl = evs
-        if r.scen == "CP":
-            impl = [e for e in evs if not e.startswith("Error")]
         if True:
             tie_cases.append("(%s, %s, [%s], %s, %s, %d, [%s])" % (
                 coq_scenario(r.scen, min(np_, 2), r.rej), "HExit" if r.mode == "E" else "HJump",
@@ -490,7 +527,7 @@ def run(ctx):
                                       "lsan_reports_leak_not_seen_by_hooks": lsan_only[:10]}
     # one evaluation inside Coq per run: the proved monitor accepts the implementation trace AND the model generates the same trace;
     # the failing runs are then evaluated again to tell the two apart
-    pre = PRE % tuple(coq_bool(variant[k]) for k in ("v_mbuf", "v_dbuf", "v_darena", "v_lstructs"))
+    pre = PRE % tuple(coq_bool(variant[k]) for k in ("v_mbuf", "v_dbuf", "v_darena", "v_lstructs", "v_dnull", "v_npl"))
     pre += "\nDefinition both (c : scenario * hmode * list nat * list nat * bool * nat * trace) : bool :=\n" \
            "  let '(_, _, _, _, _, _, impl) := c in safe_trace impl && tie c.\n"
     assert len(tie_cases) == len(mon_cases)
@@ -504,6 +541,25 @@ def run(ctx):
         dis = [sub[j] for j in d2]
         if len(failing) > len(sub):
             dis += failing[len(sub):]
+    # runs on which the MODEL runs into undefined behaviour (only the in-place scenarios can): the implementation followed the model up to
+    # that point (checked by tie); it must then have shown a violation to one of the oracles, otherwise the defect is reported from the model
+    ip_idx = [i for i, (r, _) in enumerate(tie_runs) if r.scen in ("IP", "RC")]
+    if ip_idx:
+        unsafe = ctx.coq_eval("c21unsafe", IMPORTS, [tie_cases[i] for i in ip_idx], "model_safe", pre=pre, shard=200)
+        n_unsafe = 0
+        for j in unsafe:
+            r, case = tie_runs[ip_idx[j]]
+            n_unsafe += 1
+            if id(r) not in flagged:
+                sz = sizes.get(r.idx)
+                sig = {"site": API.get(r.scen), "plugin": bool(sz and sz["nplugin"]), "kind": "use-or-free-of-dead-block-after-alloc-failure"}
+                key = "impl_violation " + " ".join("%s=%s" % kv for kv in sorted(sig.items()))
+                sigcount[key] = sigcount.get(key, 0) + 1
+                ctx.violation("impl_violation", case, expected="the object left by a failed in-place construction is deletable",
+                              observed="the model (which the implementation trace follows event for event up to this point) frees or reads a block "
+                                       "that is no longer live: " + " ".join(r.tokens) + " | " + r.status,
+                              theorem="C21_inplace_failure_deletable", signature=sig, found_input=True)
+        ctx.cov["support"]["model_unsafe_runs"] = n_unsafe
     for i in bad[:10]:
         r, case = mon_runs[i]
         # already reported by the python oracle when it is a double/foreign free; otherwise report here
